@@ -9,6 +9,10 @@ Threads execute programs (lists of operations). Small steps of thread `i`:
   release.
 A schedule is a list of thread indices; the scheduler may pick any thread, steps that are not
 enabled are skipped.
+
+`linearizable` / `linearizableP` decide whether ONE observed concurrent run (per thread the calls
+with their results, and the calls made after the threads were joined) is explained by a sequential
+order; the `step` functions of the real components are in `Model/ConcComponents.lean`.
 -/
 namespace Vinegar.Conc
 
@@ -92,6 +96,33 @@ def linearizable [DecidableEq R] (step : S → Op → S × R) : Nat → S → Li
       | some ((op, r) :: _) =>
         let x := step s op
         decide (x.2 = r) && linearizable step f x.1 (removeHead obs i)
+      | _ => false)
+
+/-! ### … with a probe of the final state
+
+After the threads have been joined the harness makes further calls on the component (the probe).
+They must be what the sequential `step` answers in the FINAL state of the SAME linearization that
+explains the threads' results: "afterwards the component is in a state from which the next call
+returns correct, current data". `probe` = the probe calls with their observed results, in order. -/
+
+/-- the calls of `probe`, made one after the other from state `s`, return the recorded results -/
+def probeOK [DecidableEq R] (step : S → Op → S × R) : S → List (Op × R) → Bool
+  | _, [] => true
+  | s, (op, r) :: rest =>
+    let x := step s op
+    decide (x.2 = r) && probeOK step x.1 rest
+
+/-- `linearizable`, and the state the accepted sequential order ends in answers the probe -/
+def linearizableP [DecidableEq R] (step : S → Op → S × R) :
+    Nat → S → List (List (Op × R)) → List (Op × R) → Bool
+  | 0, s, obs, probe => obs.all (·.isEmpty) && probeOK step s probe
+  | f + 1, s, obs, probe =>
+    (obs.all (·.isEmpty) && probeOK step s probe) ||
+    (List.range obs.length).any (fun i =>
+      match obs[i]? with
+      | some ((op, r) :: _) =>
+        let x := step s op
+        decide (x.2 = r) && linearizableP step f x.1 (removeHead obs i) probe
       | _ => false)
 
 /-! ### a synchronized LRU cache over natural-number keys and values (`SynchronizedCache(LRUCache)`) -/
